@@ -9,8 +9,9 @@ import Girc.Base.Bytes
   group's first error, execLoop's own result, the socket, `Client.conn`.
   One action = one atomic step at channel/lock granularity. Handlers are opaque terminating actions
   that run inside `execTake`/`execFlush` (assumption: handlers return).
-  History variables (`received`, `delivered`, `emitted`, `written`, `reqAtWait`) record what an
-  observer sees; they never influence a step.
+  History variables (`received`, `delivered`, `emitted`, `written`, `reqAtWait`, `parseErrSeen`,
+  `pingTimedOut`, `writeFailed`) record what an observer sees; they never influence a step.
+  Configuration (`cap`, `pingOff`) is fixed by `begin` and never changed by a step.
 
   Source anchors: conn.go internalConnect / readLoop / sendLoop / pingLoop / write, client.go execLoop /
   Close / Quit, internal/ctxgroup (first error wins, cancels).
@@ -61,6 +62,7 @@ inductive OutEv where
 
 structure LState where
   cap : Nat := 25
+  pingOff : Bool := false         -- configuration: `Config.PingDelay <= 0` (keep-alive pings disabled)
   rx : List Ev := []
   tx : List OutEv := []
   wire : List Ev := []            -- sent by the peer, not yet read
@@ -84,6 +86,9 @@ structure LState where
   written : List OutEv := []
   closeRequested : Bool := false  -- Close() was called, or a QUIT was written (sendLoop calls Close())
   reqAtWait : Bool := false       -- the parent context's state when `group.Wait()` returned
+  parseErrSeen : Bool := false    -- readLoop hit a malformed line (`ErrParseEvent`); written only by `readParseErr`
+  pingTimedOut : Bool := false    -- pingLoop returned `ErrTimedOut`; written only by `pingTimeout`
+  writeFailed : Bool := false     -- a socket write in sendLoop failed; written only by `sendFail`
   deriving Repr
 
 inductive Act where
@@ -94,7 +99,7 @@ inductive Act where
   | readTake | readEOF | readParseErr | readCancel
   | execTake | execFlush
   | sendTake | sendFail | sendCancel
-  | pingTimeout | pingCancel
+  | pingTimeout | pingCancel | pingDisabled
   | mainWait | mainClosedEv | mainTeardown | mainDisc | mainFinish
   deriving DecidableEq, Repr
 
@@ -140,7 +145,7 @@ def step (s : LState) : Act → Option LState
     match s.read, s.wire with
     | .running, _ :: rest =>
       if s.groupCancelled && s.readExtra then none
-      else some { s.fail .parse with read := .exited (some .parse), wire := rest }
+      else some { s.fail .parse with read := .exited (some .parse), wire := rest, parseErrSeen := true }
     | _, _ => none
   | .readCancel =>
     match s.read with
@@ -177,7 +182,7 @@ def step (s : LState) : Act → Option LState
     match s.send, s.tx with
     | .running, o :: rest =>
       if s.peerClosed || s.sockClosed then
-        let s := { s with tx := rest }
+        let s := { s with tx := rest, writeFailed := true }
         if o = .quit then
           -- `if event.Command == QUIT { c.Close(); return nil }` comes before the error test
           some { s with parentCancelled := true, groupCancelled := true, closeRequested := true, send := .exited none }
@@ -191,11 +196,21 @@ def step (s : LState) : Act → Option LState
   -- pingLoop
   | .pingTimeout =>
     match s.ping with
-    | .running => some { s.fail .pingTimeout with ping := .exited (some .pingTimeout) }
+    | .running =>
+      -- with pings disabled the loop never gets as far as the ticker
+      if s.pingOff then none
+      else some { s.fail .pingTimeout with ping := .exited (some .pingTimeout), pingTimedOut := true }
     | _ => none
   | .pingCancel =>
     match s.ping with
-    | .running => if s.groupCancelled then some { s with ping := .exited none } else none
+    -- the `<-ctx.Done()` arm of the select: only reached when pings are enabled
+    | .running => if s.groupCancelled && !s.pingOff then some { s with ping := .exited none } else none
+    | _ => none
+  -- `if c.Config.PingDelay <= 0 { return nil }`: the loop returns nil at once, on a healthy connection.
+  -- `ctxgroup.Go` records an error / cancels only for a non-nil result: nothing else changes.
+  | .pingDisabled =>
+    match s.ping with
+    | .running => if s.pingOff then some { s with ping := .exited none } else none
     | _ => none
   -- internalConnect after the loops have been started
   | .mainWait =>
@@ -233,10 +248,11 @@ def run (s : LState) : List Act → Option LState
 
 /-- The start of a connection: the previous connection's queues are emptied (`internalConnect`
     drains rx and tx under the client mutex before starting the loops). -/
-def begin (_prevRx : List Ev) (_prevTx : List OutEv) (cap : Nat := 25) : LState := { cap := cap }
+def begin (_prevRx : List Ev) (_prevTx : List OutEv) (cap : Nat := 25) (pingOff : Bool := false) : LState :=
+  { cap := cap, pingOff := pingOff }
 
 inductive Reach : LState → Prop where
-  | init (rx : List Ev) (tx : List OutEv) (cap : Nat) : Reach (begin rx tx cap)
+  | init (rx : List Ev) (tx : List OutEv) (cap : Nat) (pingOff : Bool) : Reach (begin rx tx cap pingOff)
   | step {s s' : LState} (a : Act) : Reach s → step s a = some s' → Reach s'
 
 /-- Termination measure: work the library still has to do once the group is cancelled. -/
